@@ -294,6 +294,13 @@ def verify_function(qualname, contract, schema, timeout_ms=10000, contracts=None
             raise Unsupported("fragment: %d loops over %s in %s" % (len(hits), frag["iter"], qualname))
         body_stmts = hits[0].body
         rep.fragment = "body of `for %s in %s` (line %d)" % (ast.unparse(hits[0].target), frag["iter"], hits[0].lineno)
+        if frag.get("stmt"):
+            # one statement of that loop body: the one whose source text starts with the given text
+            sel = [st for st in body_stmts if ast.unparse(st).replace('"', "'").startswith(frag["stmt"].replace('"', "'"))]
+            if len(sel) != 1:
+                raise Unsupported("fragment: %d statements start with %r in the loop over %s in %s" % (len(sel), frag["stmt"], frag["iter"], qualname))
+            body_stmts = sel
+            rep.fragment = "statement at line %d (`%s ...`) of the body of `for %s in %s`" % (sel[0].lineno, frag["stmt"][:40], ast.unparse(hits[0].target), frag["iter"])
 
     def run(ch):
         it = Interp(mod, schema, mode=contract.get("mode", "REAL"), contracts=contracts or {})
@@ -447,6 +454,13 @@ def verify_function(qualname, contract, schema, timeout_ms=10000, contracts=None
                     it.qfacts = saved_q
                 except Unsupported as u:
                     rep.unsupported.append("%s/%s: %s" % (ename, pid, u))
+                except (Aborted, _Raise) as ex:
+                    # the clause DEFINITELY fails to evaluate in this post-state (a key / index / attribute it speaks about is
+                    # not there): what it asserts does not hold
+                    it.pc = saved
+                    it.qfacts = saved_q
+                    it.oblige("post", "%s/%s" % (ename, pid), False, None, "%s -- cannot be evaluated in the post-state (%s): a key, index or attribute the clause speaks about is missing"
+                              % (expr, getattr(ex, "exc_class", None) or "definite failure"))
             # frame
             if "modifies" in contract:
                 try:
